@@ -15,6 +15,8 @@ import (
 
 func init() {
 	register(&PropertyCheck{ID: "C09", Level: "other", Run: checkC09, Canaries: []Canary{
+		{Name: "filter-loop-with-a-keep-going-flag-and-a-helper", Silent: true, Edits: []Edit{{"subscribe.go", "\tfor {\n\t\tvar f TopicFilter\n\t\tb.get(&f.filter)\n\t\tb.get(&f.options)\n\t\tif b.err != nil {\n\t\t\tbreak\n\t\t}\n\t\tp.filters = append(p.filters, f)\n\t\tif b.i == len(data) {\n\t\t\tbreak\n\t\t}\n\t}\n\treturn b.err", "\t// the payload holds at least one topic filter\n\tfor more := true; more; more = !b.atEnd() {\n\t\tf, err := b.getTopicFilter()\n\t\tif err != nil {\n\t\t\treturn err\n\t\t}\n\t\tp.filters = append(p.filters, f)\n\t}\n\treturn nil\n}\n\n// getTopicFilter reads one filter and its subscription options.\nfunc (b *buffer) getTopicFilter() (f TopicFilter, err error) {\n\tb.get(&f.filter)\n\tb.get(&f.options)\n\treturn f, b.err"}, {"unsubscribe.go", "\tfor {\n\t\tvar f wstring\n\t\tb.get(&f)\n\t\tif b.err != nil {\n\t\t\tbreak\n\t\t}\n\t\tp.filters = append(p.filters, f)\n\t\tif b.i == len(data) {\n\t\t\tbreak\n\t\t}\n\t}\n\treturn b.err", "\t// the payload holds at least one topic filter\n\tfor more := true; more; more = !b.atEnd() {\n\t\tvar f wstring\n\t\tif b.get(&f); b.err != nil {\n\t\t\treturn b.err\n\t\t}\n\t\tp.filters = append(p.filters, f)\n\t}\n\treturn nil"}}},
+		{Name: "keep-going-loop-swallows-the-error", Rule: "R9.2", Where: "(*Subscribe).UnmarshalBinary", Edits: []Edit{{"subscribe.go", "\tfor {\n\t\tvar f TopicFilter\n\t\tb.get(&f.filter)\n\t\tb.get(&f.options)\n\t\tif b.err != nil {\n\t\t\tbreak\n\t\t}\n\t\tp.filters = append(p.filters, f)\n\t\tif b.i == len(data) {\n\t\t\tbreak\n\t\t}\n\t}\n\treturn b.err", "\t// the payload holds at least one topic filter\n\tfor more := true; more; more = !b.atEnd() {\n\t\tf, err := b.getTopicFilter()\n\t\tif err != nil {\n\t\t\tbreak\n\t\t}\n\t\tp.filters = append(p.filters, f)\n\t}\n\treturn nil\n}\n\n// getTopicFilter reads one filter and its subscription options.\nfunc (b *buffer) getTopicFilter() (f TopicFilter, err error) {\n\tb.get(&f.filter)\n\tb.get(&f.options)\n\treturn f, b.err"}, {"unsubscribe.go", "\tfor {\n\t\tvar f wstring\n\t\tb.get(&f)\n\t\tif b.err != nil {\n\t\t\tbreak\n\t\t}\n\t\tp.filters = append(p.filters, f)\n\t\tif b.i == len(data) {\n\t\t\tbreak\n\t\t}\n\t}\n\treturn b.err", "\t// the payload holds at least one topic filter\n\tfor more := true; more; more = !b.atEnd() {\n\t\tvar f wstring\n\t\tif b.get(&f); b.err != nil {\n\t\t\treturn b.err\n\t\t}\n\t\tp.filters = append(p.filters, f)\n\t}\n\treturn nil"}}},
 		{Name: "second-property-loop-ignores-the-identifier", Rule: "R9.5", Where: "Unsubscribe", Edits: []Edit{{"buffer.go", "\t}\n}\n", "\t}\n}\n\n// getUserProps reads a property section in which user properties are\n// the only ones defined, e.g. UNSUBSCRIBE. No field map is needed then.\nfunc (b *buffer) getUserProps(addProp func(UserProp)) {\n\tif b.atEnd() {\n\t\treturn\n\t}\n\tvar propLen vbint\n\tb.get(&propLen)\n\tend := b.i + int(propLen)\n\tfor b.i < end {\n\t\tvar id Ident\n\t\tvar p UserProp\n\t\tb.get(&id)\n\t\tb.get(&p)\n\t\t// first failure stops the parsing\n\t\tif b.err != nil {\n\t\t\treturn\n\t\t}\n\t\taddProp(p)\n\t}\n}\n"}, {"unsubscribe.go", "\tb.getAny(nil, p.appendUserProperty)", "\tb.getUserProps(p.appendUserProperty)"}}},
 		{Name: "reader-overwritten-as-a-whole", Rule: "R9.0", Where: "SubAck", Edits: []Edit{{"suback.go", "\tp.reasonCodes = make([]uint8, len(data)-b.i)", "\t// payload: the rest of the frame, one reason code per byte\n\t*b = buffer{data: data[b.i:], i: 0}\n\tp.reasonCodes = make([]uint8, len(b.data))"}}},
 		{Name: "high-identifiers-skipped-as-vendor-extensions", Rule: "R9.5", Where: "ConnAck#undefined-identifiers", Edits: []Edit{{"buffer.go", "\t\tdefault:\n\t\t\tb.err = fmt.Errorf(\"unknown property id 0x%02x\", id)", "\t\tdefault:\n\t\t\tif id >= 0x80 {\n\t\t\t\tvar ext bindata\n\t\t\t\tb.get(&ext)\n\t\t\t\tcontinue\n\t\t\t}\n\t\t\tb.err = fmt.Errorf(\"unknown property id 0x%02x\", id)"}}},
@@ -149,6 +151,24 @@ func checkC09(p *Prog, c *Check) {
 	}
 	c.Measured["vbi_decoders"] = nv
 	c.Floor("variable-byte-integer decoders", nv, 2, "one streaming (header) and one in-memory (property length, subscription id)")
+	// … and the remaining length of the fixed header is produced by that streaming decoder alone (shared with C06
+	// R6.2 / C15): a length loop written into the header reader itself would be a third decoder that none of the
+	// above looked at — a fifth length byte accepted there is (b) all the same
+	{
+		sc := NewCheck(c.ID, p)
+		checkC06(p, sc)
+		n62 := 0
+		for _, o := range sc.Obls {
+			if o.Rule != "R6.2" {
+				continue
+			}
+			n62++
+			c.add("R9.3", o.Construct+"#length-cell", o.Pos, o.Status, o.Detail)
+		}
+		if n62 == 0 {
+			c.Unk("R9.3", "remaining length cell", "-", "no obligation about the fixed header's length cell was generated")
+		}
+	}
 
 	// R9.4
 	nb := 0
@@ -475,7 +495,7 @@ func checkStickyResult(p *Prog, c *Check, cur *Cursor) {
 					// content consumed without the sequential reader (e.g. kept verbatim): nothing can be cut inside a field
 					continue
 				}
-				if call, isCall := r.(*ssa.Call); isCall && call.Block() == b {
+				if call, isCall := r.(*ssa.Call); isCall {
 					if sc := call.Call.StaticCallee(); sc != nil && len(sc.Blocks) > 0 && p.inMQ(sc) && sc.Signature.Results().Len() == 1 && isErrorType(sc.Signature.Results().At(0).Type()) {
 						if !inStages[sc] {
 							inStages[sc] = true
@@ -1428,6 +1448,12 @@ func stickyReturnOK(p *Prog, cur *Cursor, pr *Prover, bases []ssa.Value, b *ssa.
 			if (bo.Op == token.EQL) == dc.truth {
 				return true
 			}
+		}
+	}
+	// … and where dominance does not reach: the flow of the sticky error through the function (stickyflow.go)
+	if len(bases) == 1 && depth < 3 {
+		if p.stickyFlowAccepts(cur, b.Parent(), bases[0], ret, r, depth) {
+			return true
 		}
 	}
 	return false
